@@ -97,8 +97,8 @@ theorem typed_unique_encoding (ty : Ty) (hc : Canonical ty = true) (bs1 bs2 : Li
 /-- every generated schema is well-shaped for the round-trip theorem -/
 theorem sound_schemas : ∀ p ∈ Gen.schemas, Sound p.2 = true := by decide
 
-/-- `Canonical` fails for exactly the schemas the translator listed (those containing an `rlp:"nil"` pointer or one
-of the three lossy hand-written codecs) and holds for all others. -/
+/-- `Canonical` fails for exactly the schemas the translator listed (those containing one of the three lossy
+hand-written codecs) and holds for all others. -/
 theorem canonical_schemas :
     ∀ p ∈ Gen.schemas, Canonical p.2 = !(Gen.nonCanonicalNames.contains p.1) := by decide
 
@@ -107,7 +107,7 @@ theorem typed_roundtrip_generated : ∀ p ∈ Gen.schemas, ∀ v bs,
   fun p hp v bs => typed_roundtrip p.2 (sound_schemas p hp) v bs
 
 /-- the full statement: every generated wire/disk schema accepts only canonical bytes.  FALSE of the code that exists
-(see the four `_counterexample`s); kept visible. -/
+(see the three `_counterexample`s); kept visible. -/
 def typed_canonical_generated_statement : Prop :=
   ∀ p ∈ Gen.schemas, ∀ bs v, decT p.2 bs = .ok v → encT p.2 v = some bs
 
@@ -120,7 +120,7 @@ theorem typed_canonical_generated_partial : ∀ p ∈ Gen.schemas, Gen.nonCanoni
   exact typed_canonical p.2 this bs v
 
 /-! ## the non-canonical codecs: negation proved on the model with concrete witnesses (replayed on the real code by
-the harness probes F-C14a…d) -/
+the harness probes F-C14a…c) -/
 
 /-- executable check: `bs` is accepted and re-encodes to something else -/
 def nonCanonWitness (ty : Ty) (bs : List UInt8) : Bool :=
@@ -135,11 +135,16 @@ theorem witness_spec (ty : Ty) (bs : List UInt8) (h : nonCanonWitness ty bs = tr
   · next v hv => exact ⟨v, hv, by simpa using h⟩
   · simp at h
 
-/-- F-C14d: a transaction whose recipient is the empty LIST 0xC0 is accepted as a contract creation and re-encodes
-with 0x80 (rlp:"nil" pointer decoder). -/
+/-- F-C14d (fixed in /repo by d3120fe): a transaction whose recipient is the empty LIST 0xC0 used to be accepted as
+a contract creation and re-encoded with 0x80 (rlp:"nil" pointer decoder); the repaired decoder, and so the model,
+rejects it, and every schema containing a transaction is canonical again.  (test on a literal) -/
 def txWitness : List UInt8 := [0xc9, 0x80, 0x80, 0x80, 0xc0, 0x80, 0x80, 0x80, 0x80, 0x80]
-theorem nilptr_counterexample : ∃ v, decT Gen.types_Transaction txWitness = .ok v ∧ encT Gen.types_Transaction v ≠ some txWitness :=
-  witness_spec _ _ (by decide)
+def rejectsWith (ty : Ty) (bs : List UInt8) (e : TErr) : Bool :=
+  match decT ty bs with
+  | .error e' => decide (e' = e)
+  | .ok _ => false
+example : rejectsWith Gen.types_Transaction txWitness .wrongNilKind = true := by decide
+example : Canonical Gen.types_Transaction = true ∧ Canonical Gen.types_Block = true := by decide
 
 /-- F-C14b: a validator index listing the same address twice is accepted and re-encodes with one entry. -/
 def indexWitness : List UInt8 :=
@@ -162,8 +167,8 @@ theorem expelled_counterexample : ∃ v, decT Gen.state_Validator validatorWitne
 /-- hence the full statement is false of the code that exists -/
 theorem typed_canonical_generated_false : ¬ typed_canonical_generated_statement := by
   intro h
-  obtain ⟨v, hd, hne⟩ := nilptr_counterexample
-  exact hne (h ("types.Transaction", Gen.types_Transaction) (by simp [Gen.schemas]) txWitness v hd)
+  obtain ⟨v, hd, hne⟩ := addrSet_counterexample
+  exact hne (h ("state.ValidatorIndex", Gen.state_ValidatorIndex) (by simp [Gen.schemas]) indexWitness v hd)
 
 /-! ## non-vacuity (tests on literals, labelled as such) -/
 
